@@ -134,6 +134,7 @@ func properties() map[string]*Property {
 		Jobs:   hostile(allContractFns()...),
 		Kinds:  safetyKinds,
 		Labels: []string{"C10"},
+		Extra:  []string{"bounded-safety-uncovered"},
 		Assume: []string{
 			"handlers return arbitrary (p, err): p is an unconstrained 64-bit integer at every call",
 			"pointer targets of Decode functions are non-nil (a nil target is a caller error, like json.Unmarshal(nil))",
